@@ -245,7 +245,7 @@ pub fn run(ctx: &Ctx) -> i32 {
     let rec = new_rec(ctx, "C12");
     {
         let mut r = rec.borrow_mut();
-        r.rule = "case = (reference encoding of a generated value / envelope, optionally with one fault: truncation, bit flip outside length fields, type byte; delivery schedule: whole, one byte at a time, single split point, or a script of chunk sizes with Pending injections; trailing sentinel bytes); oracle: async Ok(v) iff in-memory Ok(v) with equal values, async Err whenever in-memory Err, bytes taken from the stream = bytes the in-memory decoder consumed; short messages (<= 64 bytes) additionally get every split point exhaustively; payloads of 65535..200001 bytes as value, field and list element under four schedules; non-trivial = schedule has >= 2 chunks or a Pending; plus nesting chains of depth 1..=91 through struct / list / map-value / set hops skipped in memory and asynchronously (same answer, same bytes taken)".into();
+        r.rule = "case = (reference encoding of a generated value / envelope, optionally with one fault: truncation, bit flip outside length fields, type byte; delivery schedule: whole, one byte at a time, single split point, or a script of chunk sizes with Pending injections; trailing sentinel bytes); oracle: async Ok(v) iff in-memory Ok(v) with equal values, async Err whenever in-memory Err, bytes taken from the stream = bytes the in-memory decoder consumed; short messages (<= 64 bytes) additionally get every split point exhaustively; payloads of 65535..200001 bytes as value, field and list element under four schedules; the TApplicationException decoder (empty / present / absent message, three layouts) and every byte value in bool position decoded in memory and asynchronously; non-trivial = schedule has >= 2 chunks or a Pending; plus nesting chains of depth 1..=91 through struct / list / map-value / set hops skipped in memory and asynchronously (same answer, same bytes taken)".into();
         r.assumptions = vec![
             "the scripted reader wakes itself on Pending; the executor re-polls immediately".into(),
             "inputs on which the in-memory decoder panics or that enlarge a length field are excluded and counted (C09 decides them)".into(),
@@ -370,6 +370,104 @@ pub fn run(ctx: &Ctx) -> i32 {
             }
         }
     }
+    // the hand-written TApplicationException decoder and every bool byte: async = in-memory
+    if rec.borrow().violations.is_empty() {
+        use pilota::thrift::Message as _;
+        let mut reported = std::collections::BTreeSet::new();
+        let mut flag = |rec: &std::cell::RefCell<vcore::evidence::Recorder>, f: Fail, case: serde_json::Value| {
+            if reported.insert(f.key.clone()) && !ctx.findings.is_open("C12", &f.key) {
+                report(ctx, rec, "async-fixed", &case, &f);
+            }
+        };
+        for msg in ["", "x", "boom: something failed", "\u{e9}"] {
+            for kind in [0i32, 6, -1] {
+                for layout in 0..3u8 {
+                    let mut fields = vec![(1i16, TVal::Binary(msg.as_bytes().to_vec())), (2i16, TVal::I32(kind))];
+                    match layout {
+                        1 => fields.swap(0, 1),
+                        2 => {
+                            fields.remove(0);
+                        }
+                        _ => {}
+                    };
+                    let sv = TVal::Struct(fields);
+                    for pk in [PKind::Binary, PKind::BinaryLe, PKind::Compact] {
+                        let data = vcore::refthrift::encode(pk.ref_proto(), &sv);
+                        {
+                            let mut rr = rec.borrow_mut();
+                            rr.case(fp(&("appex", msg, kind, layout, format!("{:?}", pk))), true, || json!(format!("TApplicationException {:?} {:?}", sv, pk)));
+                            rr.class("application exception: async vs in-memory");
+                        }
+                        let d2 = data.clone();
+                        let sync = catch(move || {
+                            let mut b = Bytes::from(d2);
+                            with_reader!(pk, &mut b, |p| pilota::thrift::ApplicationException::decode(&mut p).map(|e| (e.kind().as_i32(), e.message().to_string())).map_err(|e| format!("{:?}", e)))
+                        });
+                        for script in [vec![], vec![Step::Chunk(1)], vec![Step::Chunk(3), Step::Pending, Step::Chunk(2)]] {
+                            let d3 = data.clone();
+                            let budget = 16 * data.len() + 64;
+                            let asy = catch(move || {
+                                let (reader, _s) = ScriptedReader::new(d3, script);
+                                with_async_reader!(pk, reader, |p| block_on(async { pilota::thrift::ApplicationException::decode_async(&mut p).await.map(|e| (e.kind().as_i32(), e.message().to_string())).map_err(|e| format!("{:?}", e)) }, budget))
+                            });
+                            let verdict = match (&sync, &asy) {
+                                (Ok(Ok(a)), Ok(Ok(Ok(b)))) if a == b => None,
+                                (Ok(Err(_)), Ok(Ok(Err(_)))) => None,
+                                (a, b) => Some(format!("in memory {:?}, asynchronously {:?}", a, b)),
+                            };
+                            if let Some(m) = verdict {
+                                flag(&rec, Fail::new(&format!("appex-async-differs-{:?}", pk), format!("{:?}: TApplicationException {:?} decodes differently: {}", pk, sv, m)), json!({"what": "appex", "pk": format!("{:?}", pk), "hex": vcore::tval::hex(&data)}));
+                            }
+                        }
+                    }
+                }
+            }
+        }
+        // every byte value in bool position (field, list element, map key and value), binary protocols
+        for byte in 0..=255u8 {
+            for pk in [PKind::Binary, PKind::BinaryLe] {
+                let le = matches!(pk, PKind::BinaryLe);
+                let i32b = |v: i32| if le { v.to_le_bytes() } else { v.to_be_bytes() };
+                let i16b = |v: i16| if le { v.to_le_bytes() } else { v.to_be_bytes() };
+                let mut st = vec![2u8];
+                st.extend_from_slice(&i16b(1));
+                st.push(byte);
+                st.push(0);
+                let mut li = vec![2u8];
+                li.extend_from_slice(&i32b(2));
+                li.extend_from_slice(&[byte, 1]);
+                let mut mp = vec![2u8, 2u8];
+                mp.extend_from_slice(&i32b(1));
+                mp.extend_from_slice(&[byte, byte]);
+                for (tt, data) in [(vcore::tval::TT::Struct, st), (vcore::tval::TT::List, li), (vcore::tval::TT::Map, mp)] {
+                    {
+                        let mut rr = rec.borrow_mut();
+                        rr.case(fp(&("boolbyte", byte, format!("{:?}", pk), format!("{:?}", tt))), true, || json!(format!("bool byte {:#04x} in a {:?}, {:?}", byte, tt, pk)));
+                        rr.class("every bool byte: async vs in-memory");
+                    }
+                    let d2 = data.clone();
+                    let sync = catch(move || {
+                        let mut b = Bytes::from(d2);
+                        with_reader!(pk, &mut b, |p| read_val(&mut p, tt, ReadOpts::default()).map_err(|e| format!("{:?}", e)))
+                    });
+                    let d3 = data.clone();
+                    let budget = 16 * data.len() + 64;
+                    let asy = catch(move || {
+                        let (reader, _s) = ScriptedReader::new(d3, vec![Step::Chunk(2), Step::Pending]);
+                        with_async_reader!(pk, reader, |p| block_on(async { read_val_async(&mut p, tt, ReadOpts::default()).await.map_err(|e| format!("{:?}", e)) }, budget))
+                    });
+                    let verdict = match (&sync, &asy) {
+                        (Ok(Ok(a)), Ok(Ok(Ok(b)))) if a.normalized() == b.normalized() => None,
+                        (Ok(Err(_)), Ok(Ok(Err(_)))) => None,
+                        (a, b) => Some(format!("in memory {:?}, asynchronously {:?}", a, b)),
+                    };
+                    if let Some(m) = verdict {
+                        flag(&rec, Fail::new(&format!("bool-byte-async-differs-{:?}", pk), format!("{:?}: bool byte {:#04x} inside a {:?} decodes differently: {}", pk, byte, tt, m)), json!({"what": "bool", "pk": format!("{:?}", pk), "tt": format!("{:?}", tt), "hex": vcore::tval::hex(&data)}));
+                    }
+                }
+            }
+        }
+    }
     // nesting chains of depth 1..=90 through struct / list / map-value / set hops: the
     // asynchronous skipper refuses exactly where the in-memory skipper refuses
     {
@@ -392,7 +490,7 @@ pub fn run(ctx: &Ctx) -> i32 {
     }
     let _ = TVal::Bool(true);
     if rec.borrow().violations.is_empty() {
-        if let Some(c) = require_classes(&rec, &["schedule: one byte at a time", "schedule: single split", "schedule: script", "Pending injected", "valid input", "truncated input", "bit-flipped input", "envelope", "exhaustive split point", "payload > 64 KiB"]) {
+        if let Some(c) = require_classes(&rec, &["schedule: one byte at a time", "schedule: single split", "schedule: script", "Pending injected", "valid input", "truncated input", "bit-flipped input", "envelope", "exhaustive split point", "payload > 64 KiB", "application exception: async vs in-memory", "every bool byte: async vs in-memory"]) {
             rec.borrow().finish(&ctx.findings);
             return c;
         }
